@@ -6,7 +6,7 @@
    "complete without error": the model's editors are total functions; runtime
    exceptions of the implementation can only be searched (oracle). *)
 From Coq Require Import List ZArith QArith Bool Arith Sorted.
-From PV Require Import Model.Types Model.Sim Model.LogEdit Proofs.Base Proofs.C0708Proof Proofs.C18Proof Proofs.C18Extra Proofs.C18Dead Proofs.C18Res.
+From PV Require Import Model.Types Model.Sim Model.LogEdit Proofs.Base Proofs.C0708Proof Proofs.C18Proof Proofs.C18Extra Proofs.C18Dead Proofs.C18Res Proofs.C18Task.
 Import ListNotations.
 Open Scope nat_scope.
 
@@ -138,3 +138,15 @@ Theorem C18_inserted_steps_are_dead_for_resources : forall c l ab s j, Lens c s 
   /\ (forall f, f < nF c -> nth j (rl_cost (fl s' f)) 1%Q = 0%Q /\ nth j (rl_st (fl s' f)) RWorking = RFree).
 Proof. exact inserted_steps_are_dead_for_resources. Qed.
 Print Assumptions C18_inserted_steps_are_dead_for_resources.
+
+(* and a no-work step of every task: after the whole pass the remaining-work
+   entry of a new step repeats the entry before it (the initial remaining work
+   at step 0) *)
+Theorem C18_inserted_steps_do_no_work : forall c l ab s j, Lens c s (time s) ->
+  In j (new_steps ab [] l) -> j < time s ->
+  let s' := snd (insert_absence c l (ab, s)) in
+  forall t, t < nT c ->
+    let d0 := (t_work c t * (1 - t_progress c t))%Q in
+    nth j (l_rem (tl s' t)) d0 = prev d0 j (l_rem (tl s' t)).
+Proof. exact inserted_steps_do_no_work. Qed.
+Print Assumptions C18_inserted_steps_do_no_work.
